@@ -12,6 +12,7 @@ import (
 	_ "verif.local/sim/props/c02"
 	_ "verif.local/sim/props/c04"
 	_ "verif.local/sim/props/c06"
+	_ "verif.local/sim/props/c09"
 	_ "verif.local/sim/props/c10"
 	_ "verif.local/sim/props/c11"
 	_ "verif.local/sim/props/c12"
